@@ -118,6 +118,12 @@ CASES = [
     C('drop_evens_live', lambda cx: dict(xs=cx.box('xs', IS)),
       good=["len(result) <= len(old(xs))"], bad=["forall(lambda j: implies(0 <= j and j < len(result), result[j] % 2 == 1))"],
       loops={'L1': LoopSpec(inv=["len(xs) <= len(old(xs))", "0 <= _i"], modifies=['xs'], live=True, decreases="len(xs) - _i")}),
+    # range with a literal step: ceil((n - lo) / 3) values
+    C('every_third', lambda cx: dict(lo=cx.val('lo', TInt), n=cx.val('n', TInt)),
+      good=["len(result) == ((n - lo + 2) // 3 if n > lo else 0)", "forall(lambda j: implies(0 <= j and j < len(result), result[j] == lo + 3 * j and result[j] < n))"],
+      bad=["len(result) == ((n - lo) // 3 if n > lo else 0)", "forall(lambda j: implies(0 <= j and j < len(result), result[j] == lo + j))"],
+      loops={'L1': LoopSpec(inv=["len(out) == _i", "forall(lambda j: implies(0 <= j and j < _i, out[j] == lo + 3 * j and out[j] < n))"], modifies=['out'])},
+      locals=dict(out=IS)),
 ]
 # exceptions that must be seen: (case, exception) - without the raises clause the safety obligation has to fail
 MUST_RAISE = [('lookup_all', 'KeyError'), ('pop_middle', 'IndexError')]
@@ -194,6 +200,7 @@ def differential(rng, n):
         'first_then_rest': lambda: dict(xs=tuple(rng.randint(0, 1) for _ in range(rng.randint(0, 4)))),
         'skipped_loop': lambda: dict(xs=tuple(rng.randint(-2, 2) for _ in range(rng.randint(0, 4))), flag=rng.choice([True, False])),
         'mod_pos': lambda: dict(a=rng.randint(-20, 20), b=rng.randint(-2, 6)),
+        'every_third': lambda: dict(lo=rng.randint(-3, 8), n=rng.randint(-3, 14)),
         'for_else_search': lambda: dict(xs=tuple(rng.randint(0, 3) for _ in range(rng.randint(0, 4))), t=rng.randint(0, 3)),
     }
     bad = []
